@@ -32,14 +32,15 @@ Print Assumptions C18_mapshards_routes_every_point.
 
 (** (2) Disjointness, as an invariant of ANY history of duration changes (d > 0),
     creates, batch writes, lookups, range queries, group deletions and
-    persist+reload steps, starting from the empty policy: live groups are pairwise
+    persist+reload steps and injected metadata-store failures ([OFailNext]: the next
+    commit fails), starting from the empty policy: live groups are pairwise
     separated, hence no instant lies in two live groups. *)
 Theorem C18_groups_disjoint :
-  forall d ops, 0 < d -> Forall valid_op ops ->
-    let gs := st_gs (final (init d) ops) in
+  forall d ops f, 0 < d -> Forall valid_op ops ->
+    let gs := st_gs (fst (final_f (init d, f) ops)) in
     DisjL gs /\ forall t, (length (filter (fun g => contains g t && live g) gs) <= 1)%nat.
 Proof.
-  intros d ops Hd Hv gs. pose proof (final_inv ops (init d) (init_inv d Hd) Hv) as (HD & _).
+  intros d ops f Hd Hv gs. pose proof (final_f_inv ops (init d) f (init_inv d Hd) Hv) as (HD & _).
   split; [exact HD|]. intro t. apply DisjL_unique. exact HD.
 Qed.
 Print Assumptions C18_groups_disjoint.
@@ -51,10 +52,10 @@ Print Assumptions C18_groups_disjoint.
     earlier reloads, for all timestamps in [MinNanoTime, MaxNanoTime] and all
     d > 0, persist + reload leaves every group of the policy unchanged. *)
 Theorem C18_reload_preserves_bounds :
-  forall d ops, 0 < d -> Forall valid_op ops ->
-    let gs := st_gs (final (init d) ops) in map reload_group gs = gs.
+  forall d ops f, 0 < d -> Forall valid_op ops ->
+    let gs := st_gs (fst (final_f (init d, f) ops)) in map reload_group gs = gs.
 Proof.
-  intros d ops Hd Hv gs. pose proof (final_inv ops (init d) (init_inv d Hd) Hv) as (_ & HG & _).
+  intros d ops f Hd Hv gs. pose proof (final_f_inv ops (init d) f (init_inv d Hd) Hv) as (_ & HG & _).
   apply reload_all_id. exact HG.
 Qed.
 Print Assumptions C18_reload_preserves_bounds.
@@ -82,6 +83,18 @@ Theorem C18_reload_identity_on_int64_bounds :
 Proof. exact reload_all_id. Qed.
 Print Assumptions C18_reload_identity_on_int64_bounds.
 
+(** A metadata commit is atomic: with a store failure pending, a step either fails
+    and leaves the state (groups, next group id, duration) exactly as it was, or
+    does what it does without a failure.  In the model the state IS the persisted
+    metadata (commit writes the snapshot before swapping the cache), so nothing an
+    operation reported as failed is visible later, and an accepted create is
+    persisted; that cache = store is tied by the reload steps of the driver. *)
+Theorem C18_failed_commit_is_atomic :
+  forall st f o,
+    fst (fst (step_f (st, f) o)) = fst (step st o) \/ fst (fst (step_f (st, f) o)) = st.
+Proof. exact step_f_cases. Qed.
+Print Assumptions C18_failed_commit_is_atomic.
+
 (** DESIGN.md candidate F4 is NOT present in this tree: a bound exactly at the Unix
     epoch marshals to 0 and [ShardGroupInfo.unmarshal] maps 0 back to time.Unix(0,0). *)
 Theorem C18_epoch_bounds_roundtrip :
@@ -101,10 +114,10 @@ Print Assumptions C18_range_query_finds.
 (** Non-vacuity: a history with a duration change (clipping), a deletion, a reload
     and a batch write meets the hypotheses; the state has several live groups. *)
 Example C18_nonvacuous :
-  let ops := [OCreate 1005; OSetD 7; OCreate 998; OCreate 1012; ODelete 2%N; OReload;
-              OWrite [998; 1020; 0; -1]] in
+  let ops := [OCreate 1005; OSetD 7; OCreate 998; OFailNext; OCreate 1012; OCreate 1012; ODelete 2%N;
+              OReload; OWrite [998; 1020; 0; -1]] in
   Forall valid_op ops /\
-  map (fun g => (g_start g, g_end g, g_del g)) (st_gs (final (init 10) ops)) =
+  map (fun g => (g_start g, g_end g, g_del g)) (st_gs (fst (final_f (init 10, false) ops))) =
     [(1000, 1010, false); (998, 1000, true); (1012, 1019, false); (998, 1000, false);
      (1019, 1026, false); (-3, 4, false)].
 Proof.
@@ -116,6 +129,6 @@ Qed.
     group is [MinNanoTime, 1677-09-21T01:00Z) before and after reload. *)
 Example C18_former_witness_fixed :
   map (fun g => (g_start g, g_end g))
-      (st_gs (final (init 3600000000000) [OCreate MinNano; OReload])) =
+      (st_gs (fst (final_f (init 3600000000000, false) [OCreate MinNano; OReload]))) =
   [(MinNano, -9223369200000000000)].
 Proof. vm_compute. reflexivity. Qed.
